@@ -1061,10 +1061,9 @@ def check_C13(A: Analysis, tier):
                         if rf_ is not fn or not any(rn_ is x for b_ in h.body for x in ast.walk(b_)):
                             continue
                         rc.ob()
-                        # (metadata: the temp file is removed through the overloaded look-up of _delete, whose "not found -> None"
-                        # result the join after its try/except no longer correlates with the temp set; only the objects handler is
-                        # judged per path, the metadata handler by the existence of the removal above)
-                        absent = ent == "objects" and any(F.implied(s_.facts, a_) is False for a_ in probe_atoms(s_.facts, "isfile", dest_cls))
+                        # (metadata has no "is something at the destination" test: the temp file must be gone at every give-up; the
+                        # None-correlated continuations keep `realpath = None` of _delete's look-up apart from the found case)
+                        absent = ent == "metadata" or any(F.implied(s_.facts, a_) is False for a_ in probe_atoms(s_.facts, "isfile", dest_cls))
                         left = [t for t in s_.tmps if classify(t).cls == "TMP" and classify(t).key == C(ent)]
                         if absent and left:
                             rc.fail(fn, rn_, "after a failed move (nothing at the permanent address) the handler gives up here while the temp file can "
